@@ -115,6 +115,7 @@ class World:
             name = name or 'f%d.mos.xml' % self.n
             if self.replay:
                 path = os.path.join(self._tmpdir(), name)
+                os.makedirs(os.path.dirname(path), exist_ok=True)
                 text = B.render(B.raw(builder))
                 B.Ctx.docs.append(text)
                 with open(path, 'w', encoding='utf-8') as f:
@@ -300,6 +301,16 @@ def msg_builder(kind, ref, mid, new_id=None, ro_id='RO'):
     return lambda: B.raw(build)
 
 
+def _with_ncs(builder, ncs):
+    def build():
+        B.Ctx.ncs_id = ncs
+        try:
+            return B.raw(builder)
+        finally:
+            B.Ctx.ncs_id = None
+    return build
+
+
 def collection_cell(P, A):
     """C09/C10: MosCollection.merge == adding the freshly read messages one by one in ascending
     numeric message-ID order; strict / non-strict; any supply order; three constructors."""
@@ -317,10 +328,17 @@ def collection_cell(P, A):
     with World(opt=P.get('opt', False)) as W:
         mt, mc_mod, exc = W.mt, W.mc, W.exc
         handles = [W.doc(ro_builder(ids, rc_mid, completed=bool(P.get('rc_completed'))), kind=src)]
+        ncs = P.get('ncs_ids')
         for j, kind in enumerate(kinds):
             fails = A.get('f%d' % j, False) if P.get('may_fail', True) else False
             ref = x if fails else ids[P.get('refs', [0, 1, 2, 0])[j] % N]
-            handles.append(W.doc(msg_builder(kind, ref, mids[j], new_id=A.get('n%d' % j)), kind=src))
+            b = msg_builder(kind, ref, mids[j], new_id=A.get('n%d' % j))
+            if ncs:
+                b = _with_ncs(b, ncs[j])
+            name = None
+            if P.get('same_basename') and src == 'file':
+                name = 'dir%d/message.mos.xml' % j       # different files that share their base name
+            handles.append(W.doc(b, kind=src, name=name))
         supplied = [handles[i] for i in perm]
         if src == 's3':
             W.pages = [{'Contents': [{'Key': h} for h in supplied]}]
@@ -450,6 +468,17 @@ def accept_cell(P, A):
             else:
                 b = msg_builder(kind, 'a', mid, ro_id=rids[i])
             handles.append(W.doc(b, kind=src))
+        if P.get('repeat') is not None and P['repeat'] < len(handles):
+            # the very same string / path / key listed twice: two readers, counted twice
+            handles.append(handles[P['repeat']])
+            kinds = kinds + [kinds[P['repeat']]]
+            rids = rids + [rids[P['repeat']]]
+            mid_of = mid_of + [mid_of[P['repeat']]]
+            n = n + 1
+            if kinds[-1] == 'roCreate':
+                n_rc += 1
+            elif kinds[-1] == 'roDelete':
+                n_rd += 1
         if src == 's3':
             W.pages = [{'Contents': [{'Key': h} for h in handles]}]
 
